@@ -50,6 +50,13 @@ class FMMetrics(Metrics):  # pylint: disable=too-many-instance-attributes
     def get_result(self) -> list[dict[str, Any]]:
         return self.result
 
+    def execute(self, model: VariabilityModel) -> 'FMMetrics':
+        # Metrics.execute() extends self.result: start from scratch on every execution so that
+        # an operation object used for a second model does not report the first one again.
+        self.result = []
+        super().execute(model)
+        return self
+
     def calculate_metamodel_metrics(self, model: VariabilityModel) -> list[dict[str, Any]]:
         self.model = cast(FeatureModel, model)
 
